@@ -228,9 +228,10 @@ impl Model for DefaultModel {
                 for rule in rules {
                     ast.policy.replace(rule);
                 }
+                return true;
             }
         }
-        all_added
+        false
     }
 
     fn get_policy(&self, sec: &str, ptype: &str) -> Vec<Vec<String>> {
@@ -329,9 +330,10 @@ impl Model for DefaultModel {
                 for rule in &rules {
                     ast.policy.remove(rule);
                 }
+                return true;
             }
         }
-        all_removed
+        false
     }
 
     fn clear_policy(&mut self) {
